@@ -12,7 +12,7 @@ from decimal import Decimal
 from lib import gram, heap, monitors
 
 ID = 'C02'
-TECHNIQUE = 'runtime monitor: type census of every node result (M1+M8) and audit-hook event filter (sys.addaudithook) under a hostile builtin x argument workload'
+TECHNIQUE = 'runtime monitor: type census of every node result (M1+M8) and audit-hook event filter (sys.addaudithook) under a hostile builtin x argument workload; plus coverage-guided programs (atheris) judged by the same census and audit filter'
 RULE = "(1) every name in the function table x arities 0-4 x argument expressions from a hostile pool (plain scalars, attribute-/format-like strings, dotted %a.b% names bound and unbound, nested and aliased containers, tuples, slices, program lambdas, the builtin objects themselves, ast_names helpers), through eval in call, method and pipe spelling, plus index/slice/assignment of the result; (1b) every ordered pair of table entries called one after the other with identical arguments; (1c) the parameter names of the builtins' implementations spelled as keyword-like arguments; (2) random derivations of the grammar whose identifiers are builtin names, plain-data host names and ast_names helpers, with one-token mutations; compiled lambdas and parsed trees are supplied through ast_names. Host binds plain data only. Every node result, the final result and everything reachable from names afterwards is censused; audit events are filtered inside every eval. Non-trivial = at least one node result was censused; distinct = distinct source text."
 RULE += ' (1d) every table entry with every 2- and 3-tuple (sampled 4-tuples) over a focused pool {text, pattern, list, dict, two program lambdas, number, string}; results are also indexed with fractional numbers.'
 RULE += ' One ast_names evaluation in four also carries a helper whose own evaluation fails (names must still hold plain data afterwards).'
